@@ -5,7 +5,10 @@ package main
 
 import (
 	"flag"
+	"io/ioutil"
+
 	"fmt"
+	"github.com/getlantern/golog"
 	"os"
 	"sort"
 )
@@ -17,6 +20,7 @@ var runners = map[string]runner{}
 func register(name string, r runner) { runners[name] = r }
 
 func main() {
+	golog.SetOutputs(ioutil.Discard, ioutil.Discard)
 	if len(os.Args) < 2 {
 		usage()
 	}
